@@ -5,3 +5,7 @@ import Resvg.Props.C18
 #print axioms Resvg.Props.C18.C18_region_equivalent
 #print axioms Resvg.Props.C18.C18_pattern_content
 #print axioms Resvg.Props.C18.C18_different_boxes_different_resolution
+#print axioms Resvg.Props.C18.det_mulT
+#print axioms Resvg.Props.C18.C18_rewriting_scales_det
+#print axioms Resvg.Props.C18.C18_nonzero_box_keeps_invertible
+#print axioms Resvg.Props.C18.C18_zero_box_degenerate
